@@ -29,6 +29,7 @@ type readResult struct {
 	// PacketWithError: a non-nil packet value (possibly a typed nil pointer
 	// inside the interface) was returned together with an error.
 	PacketWithError bool
+	P               mq.ControlPacket // the packet itself, for a later second look
 }
 
 func resultOf(p mq.ControlPacket, err error, pan *guard.Panic) readResult {
@@ -40,6 +41,7 @@ func resultOf(p mq.ControlPacket, err error, pan *guard.Panic) readResult {
 		return r
 	}
 	r.OK = true
+	r.P = p
 	r.Type = api.TypeOf(p)
 	r.Obs = api.Observe(p)
 	if r.Type != model.UNDEFINED {
@@ -94,9 +96,38 @@ func genCompleteFrame(t *rapid.T, small bool) (frame []byte, kind string) {
 		// a large frame: remaining length in its 3- or 4-byte form
 		m := model.New(model.PUBLISH)
 		m.TopicName = "big"
-		padToRemainingLength(&m, rapid.SampledFrom([]int{70000, 1<<20 - 1, 1<<20 + 7, 2097151, 2097152, 2097153, 3 << 20}).Draw(t, "largerl"))
+		padToRemainingLength(&m, rapid.SampledFrom([]int{65535, 65536, 65536, 65537, 70000, 131072, 262144, 1<<20 - 1, 1 << 20, 1<<20 + 7, 2097151, 2097152, 2097153, 3 << 20}).Draw(t, "largerl"))
 		m.Normalize()
 		return ref.Canonical(&m), "valid-large"
+	}
+	if !small && rapid.IntRange(0, 19).Draw(t, "largemalformed") == 0 {
+		// a large PUBLISH (around the sizes where implementations switch to
+		// another code path) in which one inner length field - topic length
+		// or property length - points beyond the end of the frame; the
+		// remaining length stays equal to the bytes that follow
+		m := model.New(model.PUBLISH)
+		m.TopicName = "t/large"
+		if rapid.Bool().Draw(t, "lm.props") {
+			m.ContentType = "x"
+		}
+		padToRemainingLength(&m, rapid.SampledFrom([]int{4096, 8192, 8193, 16383, 16384, 17000, 32768, 65535, 65536, 70000, 131072}).Draw(t, "lm.rl"))
+		m.Normalize()
+		f, spans := ref.Tree(&m, ref.Style{Form: 2}).Bytes()
+		var inner []ref.LenField
+		for _, lf := range ref.LengthFields(spans) {
+			if lf.Kind != ref.KRemLen {
+				inner = append(inner, lf)
+			}
+		}
+		if len(inner) > 0 {
+			lf := inner[rapid.IntRange(0, len(inner)-1).Draw(t, "lm.field")]
+			old := lenFieldValue(f, lf)
+			nv := rapid.SampledFrom([]uint32{old + 1, old + 255, 65535, uint32(len(f)), uint32(len(f)) + 1, 2097151, 268435455}).Draw(t, "lm.value")
+			g := setLenField(f, lf, nv)
+			if first, hdr, _, ok := ref.Split(g); ok {
+				return ref.Reframe(first, g[hdr:]), "content-malformed"
+			}
+		}
 	}
 	switch k := rapid.IntRange(0, 9).Draw(t, "framekind"); {
 	case k < 4:
